@@ -62,7 +62,7 @@ func (S) Info() scen.Info {
 			"goroutine scheduling": "stub: seeded one-at-a-time scheduler; yields between operations, between reader chunks, inside visitor and transform callbacks",
 		},
 		QuickUnits: 50000, ThoroughUnits: 3000000, QuickSecs: 240, ThoroughSecs: 1200,
-		ProbeKeys: []string{"probe.type_system_merged_elsewhere", "probe.exhausted_iterator_asked_again", "probe.reset_producer", "probe.assign_then_reset", "probe.copy_and_extend", "probe.largebytes_interleaved", "probe.two_readers_same_node", "probe.subset_match_bytes", "probe.subset_match_string", "probe.focused_transform", "probe.walk_transform", "probe.abandoned_builder", "probe.typed_node_in_pool", "probe.stream_bytes_node", "probe.callback_interleaved", "probe.loaded_node_in_pool", "probe.load_while_holding_loaded_nodes", "probe.iterator_nodes_retained", "probe.lookup_result_retained", "probe.extended_after_assign", "probe.stream_reader_unusual_but_legal", "probe.stream_read_fault_fired", "probe.assign_into_specific_generic_builder", "probe.vocabulary_node_in_pool", "probe.stale_assembler_handles_used"},
+		ProbeKeys: []string{"probe.other_view_read_by_position", "probe.type_system_merged_elsewhere", "probe.exhausted_iterator_asked_again", "probe.reset_producer", "probe.assign_then_reset", "probe.copy_and_extend", "probe.largebytes_interleaved", "probe.two_readers_same_node", "probe.subset_match_bytes", "probe.subset_match_string", "probe.focused_transform", "probe.walk_transform", "probe.abandoned_builder", "probe.typed_node_in_pool", "probe.stream_bytes_node", "probe.callback_interleaved", "probe.loaded_node_in_pool", "probe.load_while_holding_loaded_nodes", "probe.iterator_nodes_retained", "probe.lookup_result_retained", "probe.extended_after_assign", "probe.stream_reader_unusual_but_legal", "probe.stream_read_fault_fired", "probe.assign_into_specific_generic_builder", "probe.vocabulary_node_in_pool", "probe.stale_assembler_handles_used"},
 		EventsKey: "events",
 	}
 }
@@ -312,7 +312,7 @@ func (S) RunTape(t *sim.Tape, st *sim.Stats, keepLog bool) *sim.Outcome {
 	total := 0
 	for h := 0; h < nh; h++ {
 		for total < 80 && len(plans[h]) < 30 && t.Begin("step", 92) {
-			plans[h] = append(plans[h], step{t.Choice(25, "op"), t.Choice(64, "a"), t.Choice(64, "b"), t.Choice(64, "c")})
+			plans[h] = append(plans[h], step{t.Choice(26, "op"), t.Choice(64, "a"), t.Choice(64, "b"), t.Choice(64, "c")})
 			total++
 			t.End()
 		}
@@ -965,6 +965,74 @@ func (w *world) step(h int, rd *reader, op, a, b, c int) string {
 		w.share = true
 		w.st.Inc("probe.iterator_nodes_retained")
 		return fmt.Sprintf("retain-iterator-nodes(%s#%d)", e.origin, i)
+	case 25: // the OTHER view of a typed node is read by position and by key (what encoders, printers and path lookups do)
+		tn, ok := e.n.(schema.TypedNode)
+		if !ok {
+			return "other-view-skip"
+		}
+		var probe func(n datamodel.Node, depth int)
+		probe = func(n datamodel.Node, depth int) {
+			if n == nil || depth > 4 {
+				return
+			}
+			switch n.Kind() {
+			case datamodel.Kind_List:
+				for j := int64(0); j < n.Length() && j < 16; j++ {
+					if c, err := n.LookupByIndex(j); err == nil {
+						probe(c, depth+1)
+					}
+					if c, err := n.LookupBySegment(datamodel.PathSegmentOfInt(j)); err == nil && c != nil {
+						c.Kind()
+					}
+				}
+			case datamodel.Kind_Map:
+				var keys []string
+				for it := n.MapIterator(); it != nil && !it.Done(); {
+					k, _, err := it.Next()
+					if err != nil {
+						break
+					}
+					if ks, err := k.AsString(); err == nil {
+						keys = append(keys, ks)
+					}
+				}
+				for _, k := range keys {
+					if c, err := n.LookupByString(k); err == nil {
+						probe(c, depth+1)
+					}
+				}
+				n.Length()
+			}
+		}
+		pan := safe(func() {
+			probe(tn.Representation(), 0)
+			// and children reached through the type-level view, each through ITS representation
+			switch e.n.Kind() {
+			case datamodel.Kind_Map:
+				for it := e.n.MapIterator(); it != nil && !it.Done(); {
+					_, v, err := it.Next()
+					if err != nil {
+						break
+					}
+					if tv, ok := v.(schema.TypedNode); ok && !v.IsAbsent() && !v.IsNull() {
+						probe(tv.Representation(), 1)
+					}
+				}
+			case datamodel.Kind_List:
+				for it := e.n.ListIterator(); it != nil && !it.Done(); {
+					_, v, err := it.Next()
+					if err != nil {
+						break
+					}
+					if tv, ok := v.(schema.TypedNode); ok && !v.IsAbsent() && !v.IsNull() {
+						probe(tv.Representation(), 1)
+					}
+				}
+			}
+		})
+		_ = pan
+		w.st.Inc("probe.other_view_read_by_position")
+		return fmt.Sprintf("read-other-view-by-position(%s#%d)", e.origin, i)
 	case 23: // the type systems typed nodes belong to are merged into another one, which defines their names differently (or not at all)
 		for k, src := range []*schema.TypeSystem{w.ts, w.vts} {
 			if src == nil {
